@@ -11,7 +11,11 @@ EXTENDS Naturals, Sequences, FiniteSets, TLC
 
 CONSTANTS Ticks, MaxAssertions
 
-TV == [k : {"tick"}, t : Ticks] \cup [k : {"absent", "malformed"}, t : {0}]
+\* "ancient" is the instant 0001-01-01T00:00:00Z (Go's zero time): a well-formed bound earlier than every clock
+TV == [k : {"tick"}, t : Ticks] \cup [k : {"absent", "malformed", "ancient"}, t : {0}]
+IsInstant(v) == v.k \in {"tick", "ancient"}
+Reached(now, v) == v.k = "ancient" \/ (v.k = "tick" /\ now >= v.t)       \* now is at or after v
+Before(now, v)  == v.k = "tick" /\ now < v.t                             \* now is before v
 Cfgs   == [now : Ticks]
 Inputs == [nb : TV, cnoa : TV, scs : UNION { [1..n -> TV] : n \in 1..MaxAssertions }]
 
@@ -22,7 +26,7 @@ E(t, n) == [cls |-> "typed", type |-> t, name |-> n]
 ScCheck(now, v) ==
    IF v.k = "absent" THEN E("ErrMissingElement", "notonorafter")
    ELSE IF v.k = "malformed" THEN E("ErrParsing", "notonorafter")
-   ELSE IF now >= v.t THEN E("ErrInvalidValue", "notonorafter")
+   ELSE IF Reached(now, v) THEN E("ErrInvalidValue", "notonorafter")
    ELSE NoErr
 RECURSIVE FirstSc(_, _, _)
 FirstSc(now, scs, i) == IF i > Len(scs) THEN NoErr
@@ -35,7 +39,7 @@ CondCheck(in) ==
    ELSE IF in.cnoa.k = "absent" THEN E("ErrMissingElement", "notonorafter")
    ELSE IF in.cnoa.k = "malformed" THEN E("ErrParsing", "notonorafter")
    ELSE NoErr
-Warn(now, in) == now < in.nb.t \/ now >= in.cnoa.t
+Warn(now, in) == Before(now, in.nb) \/ Reached(now, in.cnoa)
 
 ModelOut(cfg, in) ==
    LET e == FirstSc(cfg.now, in.scs, 1) IN
@@ -45,8 +49,8 @@ ModelOut(cfg, in) ==
         ELSE [res |-> "accept", err |-> NoErr, info |-> [res |-> "accept", warn |-> Warn(cfg.now, in)]]
 
 ---------------------------------------------------------------------------
-Expired(cfg, in) == \E i \in DOMAIN in.scs : in.scs[i].k = "tick" /\ cfg.now >= in.scs[i].t
-BadSc(in)        == \E i \in DOMAIN in.scs : in.scs[i].k # "tick"
+Expired(cfg, in) == \E i \in DOMAIN in.scs : Reached(cfg.now, in.scs[i])
+BadSc(in)        == \E i \in DOMAIN in.scs : ~IsInstant(in.scs[i])
 
 \* o: [res, expired (rejected with the expiry error), info : [res, warn]]
 C05_OK(cfg, in, o) ==
@@ -55,9 +59,11 @@ C05_OK(cfg, in, o) ==
    /\ (o.res = "reject" /\ o.expired) => Expired(cfg, in) \* rejected as expired exactly when ...
    /\ (~Expired(cfg, in) /\ ~BadSc(in)) => o.res = "accept"
    /\ (o.res = "accept") =>
-        /\ (in.nb.k # "tick" \/ in.cnoa.k # "tick") => o.info.res = "reject"
-        /\ (in.nb.k = "tick" /\ in.cnoa.k = "tick") =>
-              (o.info.res = "accept" /\ (o.info.warn <=> (cfg.now < in.nb.t \/ cfg.now >= in.cnoa.t)))
+        /\ (~IsInstant(in.nb) \/ ~IsInstant(in.cnoa)) => o.info.res = "reject"
+        /\ (IsInstant(in.nb) /\ IsInstant(in.cnoa)) =>
+              (o.info.res = "accept" /\ (o.info.warn <=> (Before(cfg.now, in.nb) \/ Reached(cfg.now, in.cnoa))))
+\* C03's clause "NotOnOrAfter has not been reached on the SP clock", for every assertion
+C03_OK(cfg, in, o) == Expired(cfg, in) => o.res = "reject"
 C09_OK(cfg, in, o) == o.res \in {"accept", "reject"} /\ o.info.res \in {"accept", "reject"}
 
 Conforms(m, o) == /\ o.res = m.res /\ o.info.res = m.info.res
